@@ -202,10 +202,10 @@ Qed.
 
 Lemma cancel_from_inv cs l n k cl' : nth_error (cancel_from n cs l) k = Some cl' ->
   exists cl, nth_error l k = Some cl /\ pc cl' = pc cl /\ box cl' = box cl /\ armed cl' = armed cl /\
-             (cancelled cl' = cancelled cl \/ cancelled cl' = true).
+             ((cancelled cl' = cancelled cl /\ mem_nat (n + k) cs = false) \/ (cancelled cl' = true /\ mem_nat (n + k) cs = true)).
 Proof.
   rewrite nth_cancel_from. destruct (nth_error l k) as [cl|]; [|discriminate]. cbn [option_map].
-  destruct (mem_nat (n + k) cs); intros H; injection H as <-; exists cl; cbn; auto 8.
+  destruct (mem_nat (n + k) cs) eqn:E; intros H; injection H as <-; exists cl; cbn; auto 8.
 Qed.
 
 Ltac from_inv :=
@@ -531,7 +531,7 @@ Lemma stuck_shape_step g st l st' :
   stuck_shape st -> outside_cancel l = false -> step g st l = Some st' -> stuck_shape st'.
 Proof.
   intros (Hp & Ha & Hk & cn & Hc & Hs & Hr) Ho H.
-  destruct l as [k|k|k|k|k|k|k|k|k|k|k|c|c|c|c|c|c n|c|w|w|w|w|c i|c| |]; try discriminate Ho;
+  destruct l as [k|k|k|k|k|k|k|k|k|k|k|k|k r|k|c|c|c|c|c|c n|c|w|w|w|w|c i|c| |]; try discriminate Ho;
     try (destruct k as [|k]); try (destruct c as [|c]); try (destruct w as [[|c]|[|c]|j]);
     cbn [step who_pc who_conn] in H; rewrite ?Hk, ?Hc, ?Hp, ?Ha in H; cbn in H; rewrite ?Hs, ?Hr in H;
     try discriminate H;
@@ -580,7 +580,7 @@ Definition zombie_shape (st : state) : Prop :=
 Lemma zombie_shape_step g st l st' : zombie_shape st -> step g st l = Some st' -> zombie_shape st'.
 Proof.
   intros (Hp & Hx & Ha & Hk & cn & Hc & Hs & Hn & Hr & Hso) H.
-  destruct l as [k|k|k|k|k|k|k|k|k|k|k|c|c|c|c|c|c n|c|w|w|w|w|c i|c| |];
+  destruct l as [k|k|k|k|k|k|k|k|k|k|k|k|k r|k|c|c|c|c|c|c n|c|w|w|w|w|c i|c| |];
     try (destruct k as [|k]); try (destruct c as [|c]); try (destruct w as [[|c]|[|c]|[|j]]);
     cbn [step who_pc who_conn] in H; rewrite ?Hk, ?Hc, ?Hp, ?Ha, ?Hx in H; cbn in H; rewrite ?Hs, ?Hr, ?Hn in H;
     try discriminate H;
